@@ -313,9 +313,11 @@ func (w *World) doAdmin(t *Task) {
 				gone := node["uuid"]
 				def["nodes"] = append(append([]any{}, nodes[:ni]...), nodes[ni+1:]...)
 				for _, n := range def["nodes"].([]any) {
-					for _, ex := range n.(gen.J)["exits"].([]any) {
-						if ex.(gen.J)["destination_uuid"] == gone {
-							delete(ex.(gen.J), "destination_uuid")
+					nj, _ := asJ(n)
+					exits, _ := nj["exits"].([]any) // (an earlier edit may have left a node without exits)
+					for _, ex := range exits {
+						if ej, _ := asJ(ex); ej != nil && ej["destination_uuid"] == gone {
+							delete(ej, "destination_uuid")
 						}
 					}
 				}
@@ -325,8 +327,10 @@ func (w *World) doAdmin(t *Task) {
 				}
 			case 3:
 				if exits, _ := node["exits"].([]any); len(exits) > 0 {
-					ex := exits[0].(gen.J)
-					ex["destination_uuid"] = nodes[tp.Pick("retarget", len(nodes))].(gen.J)["uuid"]
+					target, _ := nodes[tp.Pick("retarget", len(nodes))].(gen.J)
+					if ex, _ := exits[0].(gen.J); ex != nil && target != nil {
+						ex["destination_uuid"] = target["uuid"]
+					}
 				}
 			case 4:
 				delete(node, "actions")
@@ -380,4 +384,13 @@ func CorruptBytes(b []byte, kind, at int) []byte {
 		}
 		return append(out[:end], out[at:]...)
 	}
+}
+
+// asJ returns x as a JSON object; something else (a definition an earlier edit corrupted)
+// becomes an empty object that no edit applies to.
+func asJ(x any) gen.J {
+	if j, ok := x.(gen.J); ok && j != nil {
+		return j
+	}
+	return gen.J{}
 }
